@@ -49,7 +49,7 @@ if ok:
         shutil.copy(os.path.join(stage, f), os.path.join(dst, f))
     meta['confirmed'] = {k: out.get(k) for k in ('applies', 'baseline_ok', 'demo_on_repo', 'demo_on_patched')}
     meta['checks_run'] = out['checks']
-    meta['round'] = 8
+    meta['round'] = 9
     meta['what_was_run'] = ('tools/seed_intake.py -> tools/seed_check.py: patch applied in a scratch git worktree of /repo, pinned suite '
                             'compared with the baseline, demo.py run on /repo and on the patched tree, checks run with VERIF_REPO=<worktree>')
     json.dump(meta, open(os.path.join(dst, 'meta.json'), 'w'), indent=1)
